@@ -10,6 +10,15 @@ jobs.json = {"so": path, "jobs": [ {"id":…, "engines":[option, …], "scripts"
      | {"obj":i,"call":"drive","max":N,"samples":[step indices after which sample() is called],"state":bool}
        (iterate() until it returns False or N calls; logs time, return value and optionally the state after each)
      | {"obj":i,"call":"new"}   (replace object i by a fresh LibRDEngine on the same library)
+     | {"obj":i,"call":"poll","how":"is_complete"|"iterate_n0","step":["iterate"]|["iterate_n",k]|["run",ms],"max":N}
+       (`while not e.is_complete(): step` / `while e.iterate_n(0): step` — the loop is driven by the polled status only)
+     | {"obj":i,"call":"edit_script","script":k,"set":{"rng_seed":v,"time_step_factor":f}}
+       (the CALLER edits its RDScript object k after a run; reports the seed stored in the last trajectory's script)
+     | {"obj":i,"call":"simulate_long","script":k,"wall":seconds}
+       (calibrates the step rate, then runs simulate_script on a copy of script k whose t_max needs about `wall` seconds)
+  setup / simulate also report "script_changed": the fields of the caller's RDScript that differ after the call
+  setup / simulate also report "init": what was handed to engineexport_initialize_{grid,graph} (observed by wrapping the
+  library call: the counts, the length of every buffer against the count passed alongside, and the native return code)
   optional per call: "peek": true  -> also report engineexport_get_time() (harness-only observation)
 lines:  B <job> <callindex>      before a call
         R <json>                 result of that call
@@ -27,8 +36,62 @@ def main():
     from strengths.units import UnitsSystem
     lib_path = spec["so"]
 
+    GRID_ARGS = ["w", "h", "d", "n_species", "n_reactions", "n_env", "cell_state", "cell_chstt", "cell_env", "cell_vol", "k", "sub", "sto", "D",
+                 "bc_x", "bc_y", "bc_z", "n_sample", "t_sample"]
+    GRAPH_ARGS = ["n_nodes", "n_species", "n_reactions", "n_env", "n_edges", "edge_i", "edge_j", "edge_sfc", "edge_dst", "cell_state", "cell_chstt",
+                  "cell_env", "cell_vol", "k", "sub", "sto", "D", "n_sample", "t_sample"]
+
+    class LibProxy(object):
+        """the native library with the two initialisation entry points wrapped: records what the marshalling code hands over"""
+        def __init__(self, lib):
+            object.__setattr__(self, "_real", lib)
+            object.__setattr__(self, "last_init", None)
+
+        def __getattr__(self, name):
+            real = getattr(object.__getattribute__(self, "_real"), name)
+            if name not in ("engineexport_initialize_grid", "engineexport_initialize_graph"):
+                return real
+            proxy = self
+
+            def call(*args):
+                names = GRID_ARGS if name.endswith("grid") else GRAPH_ARGS
+                a = dict(zip(names, args))
+                rec = {"fn": name, "nargs": len(args), "bad": []}
+                try:
+                    cnt = {k: int(v.value) for k, v in a.items() if isinstance(v, ctypes.c_int)}
+                    n = cnt["w"] * cnt["h"] * cnt["d"] if "w" in cnt else cnt["n_nodes"]
+                    want = {"cell_state": n * cnt["n_species"], "cell_chstt": n * cnt["n_species"], "cell_env": n,
+                            "k": cnt["n_env"] * cnt["n_reactions"], "sub": cnt["n_species"] * cnt["n_reactions"],
+                            "sto": cnt["n_species"] * cnt["n_reactions"], "D": cnt["n_species"] * cnt["n_env"], "t_sample": cnt["n_sample"]}
+                    if "n_edges" in cnt:
+                        want.update(edge_i=cnt["n_edges"], edge_j=cnt["n_edges"], edge_sfc=cnt["n_edges"], edge_dst=cnt["n_edges"], cell_vol=n)
+                    rec["counts"] = cnt
+                    for k, w in want.items():
+                        got = len(a[k]) if hasattr(a[k], "__len__") else None
+                        if got != w:
+                            rec["bad"].append({"arg": k, "buffer_length": got, "count_passed": w})
+                except Exception as ex:  # noqa
+                    rec["inspect_error"] = type(ex).__name__ + ": " + str(ex)[:100]
+                rc = real(*args)
+                rec["rc"] = int(rc)
+                object.__setattr__(proxy, "last_init", rec)
+                return rc
+            return call
+
+        def __setattr__(self, name, value):
+            setattr(object.__getattribute__(self, "_real"), name, value)
+
     def mk(option):
-        return LibRDEngine(ctypes.CDLL(lib_path), option=option, requires_molecules=(option != "euler"))
+        return LibRDEngine(LibProxy(ctypes.CDLL(lib_path)), option=option, requires_molecules=(option != "euler"))
+
+    def take_init(e, res):
+        try:
+            rec = e._lib.last_init
+            object.__setattr__(e._lib, "last_init", None)
+            if rec is not None:
+                res["init"] = rec
+        except Exception:  # noqa
+            pass
 
     def out(tag, obj):
         sys.stdout.write(tag + " " + (json.dumps(obj) if not isinstance(obj, str) else obj) + "\n")
@@ -39,8 +102,35 @@ def main():
         kw = dict(S["kw"])
         ts = kw.get("t_sample")
         if isinstance(ts, dict) and "__unitarray__" in ts:
-            kw["t_sample"] = st.UnitArray(ts["__unitarray__"], ts["units"])
+            form = ts.get("form", "unitarray")
+            if form == "dict":
+                from strengths.units import unitarray_from_dict
+                kw["t_sample"] = unitarray_from_dict({"value": ts["__unitarray__"], "units": ts["units"]})
+            elif form == "strings":
+                kw["t_sample"] = ["%r %s" % (v, ts["units"]) for v in ts["__unitarray__"]]
+            else:
+                kw["t_sample"] = st.UnitArray(ts["__unitarray__"], ts["units"])
         return st.RDScript(system, **kw)
+
+    def script_fp(sc):
+        """what the caller can see of its script object (a call on an engine must not change any of it)"""
+        fp = {}
+        for name, f in (("units_system", lambda: [sc.units_system.space, sc.units_system.time, sc.units_system.quantity]),
+                        ("rng_seed", lambda: sc.rng_seed),
+                        ("t_sample", lambda: [[float(v) for v in sc.t_sample.value], str(sc.t_sample.units)]),
+                        ("time_step", lambda: str(sc.time_step)), ("t_max", lambda: str(sc._t_max)),
+                        ("sampling_policy", lambda: sc.sampling_policy), ("sampling_interval", lambda: str(sc.sampling_interval)),
+                        ("init_state_processing", lambda: sc.init_state_processing),
+                        ("state", lambda: hashlib.sha1(np.ascontiguousarray(np.asarray(sc.system.state.value, dtype=float)).tobytes()).hexdigest()
+                                          + str(sc.system.state.units))):
+            try:
+                fp[name] = f()
+            except Exception as ex:  # noqa
+                fp[name] = "error:" + type(ex).__name__
+        return fp
+
+    def fp_diff(a, b):
+        return [{"field": k, "before": a[k], "after": b[k]} for k in a if a[k] != b[k]]
 
     def traj_json(o, full=True):
         t = np.ascontiguousarray(np.asarray(o.t.value, dtype=float))
@@ -90,9 +180,14 @@ def main():
                     except Exception as ex:  # noqa
                         meta["meta_error"] = type(ex).__name__
                     res["meta"] = meta
-                    e.setup(sc)
+                    fp0 = script_fp(sc)
+                    try:
+                        e.setup(sc)
+                    finally:
+                        take_init(e, res)
                     live = True
                     res["ret"] = None
+                    res["script_changed"] = fp_diff(fp0, script_fp(sc))
                 elif k == "iterate":
                     res["ret"] = bool(e.iterate())
                 elif k == "iterate_n":
@@ -145,9 +240,60 @@ def main():
                         src = scripts[si]
                     else:
                         src = last_out.script
-                    last_out = simulate_script(src, e)
+                    fp0 = script_fp(src)
+                    try:
+                        last_out = simulate_script(src, e)
+                    finally:
+                        take_init(e, res)
                     live = False
                     res["ret"] = traj_json(last_out, full=c.get("full", False))
+                    res["script_changed"] = fp_diff(fp0, script_fp(src))
+                elif k == "poll":
+                    how = c.get("how", "is_complete")
+                    st_ = c.get("step", ["iterate"])
+                    n = 0
+                    while n < c.get("max", 100000):
+                        go = (not e.is_complete()) if how == "is_complete" else bool(e.iterate_n(0))
+                        if not go:
+                            break
+                        if st_[0] == "iterate":
+                            e.iterate()
+                        elif st_[0] == "iterate_n":
+                            e.iterate_n(st_[1])
+                        else:
+                            e.run(st_[1])
+                        n += 1
+                    res["ret"] = {"ncalls": n, "T": float(lib.engineexport_get_time())}
+                elif k == "edit_script":
+                    sc = scripts[c["script"]]
+                    before = sc.rng_seed
+                    for key, v in c.get("set", {}).items():
+                        if key == "time_step_factor":
+                            sc.time_step = st.UnitValue(float(sc.time_step.value) * v, sc.time_step.units)
+                        else:
+                            setattr(sc, key, v)
+                    res["ret"] = {"seed_before": before, "seed_after": sc.rng_seed,
+                                  "stored_seed": (last_out.script.rng_seed if last_out is not None and last_out.script is not None else None)}
+                elif k == "simulate_long":
+                    from strengths.simulate import simulate_script
+                    sc = build_script(job["scripts"][c["script"]])
+                    dt = float(sc.time_step.value)
+                    e.setup(sc)
+                    tw = time.time()
+                    e.run(150)
+                    el = max(time.time() - tw, 1e-3)
+                    steps = float(lib.engineexport_get_time()) / dt
+                    e.finalize()
+                    nsteps = max(int(steps / el * c.get("wall", 1.8)), 10)
+                    tmax = nsteps * dt
+                    sc.t_sample = [0.0, tmax / 2, tmax]
+                    sc.t_max = tmax
+                    tw = time.time()
+                    o = simulate_script(sc, e)
+                    wall = time.time() - tw
+                    live = False
+                    res["ret"] = {"nsteps": nsteps, "tmax": tmax, "dt": dt, "wall": round(wall, 3), "rate": steps / el,
+                                  "t": [float(v) for v in o.t.value], "nsamples": int(o.nsamples()), "is_complete_after": bool(e.is_complete())}
                 elif k == "drive":
                     T, U, X, C = [], [], [], []
                     samples = set(c.get("samples", []))
